@@ -734,7 +734,11 @@ func (w *World) batchBytes(builds int) error {
 		}
 		w.noteSizeStats(&st)
 		w.stats.Extra["bytes-batch-built-containers"]++
-		return nil
+		// nothing but the container's own slabs may have been left behind by the builder (M-reach with it as a root)
+		w.roots = append(w.roots, n)
+		err := w.CheckTree(true)
+		w.roots = w.roots[:len(w.roots)-1]
+		return err
 	}
 	drop := func(n *Node) error {
 		id := rootID(n)
@@ -832,13 +836,14 @@ func (w *World) batchBytes(builds int) error {
 		cp.seq = src.seq
 		cp.Map = bm
 		cp.VID = bm.ValueID()
+		// the source goes first, so that the reachability check sees the built map alone
+		if err := drop(src); err != nil {
+			return err
+		}
 		if err := check(cp); err != nil {
 			return err
 		}
 		if err := drop(cp); err != nil {
-			return err
-		}
-		if err := drop(src); err != nil {
 			return err
 		}
 	}
